@@ -7,7 +7,8 @@ _K = "model.arguments.num_clusters"
 _CP = "count_above(model.clusters[k].train_inverse, 0.00002)"
 _LLE = "logdet(model.clusters[k].train_inverse) - trace(matmul(model.clusters[k].train_inverse, model.clusters[k].empirical_covariance))"
 
-contract(CMx + 'bayesian_information_criterion', props=['C16'],
+# C06/C13/C19: the scoring phase must leave the state it is given alone (frame obligations); the formula clauses are C16's
+contract(CMx + 'bayesian_information_criterion', props=['C16', 'C06', 'C13', 'C19'],
          params=dict(model='obj:ModelState'), returns='real',
          requires=["wf(model)", "len(model._point_labels) >= 1",
                    "forall(0, " + _K + ", lambda k: not isnone(model.clusters[k].train_inverse) and not isnone(model.clusters[k].empirical_covariance) and "
@@ -15,8 +16,8 @@ contract(CMx + 'bayesian_information_criterion', props=['C16'],
                    "model.clusters[k].empirical_covariance.shape[0] == model.clusters[k].train_inverse.shape[0] and "
                    "model.clusters[k].empirical_covariance.shape[1] == model.clusters[k].train_inverse.shape[0])"],
          ghost={'kind:cluster_params': 'idict',
-                'native_ensures': [("native:bic-finite-and-matches-its-definition", "math.isfinite(result) and result == bic_definition(model)")]},
-         ensures=[("bic-matches-its-definition",
+                'native_ensures': [("[C16] native:bic-finite-and-matches-its-definition", "math.isfinite(result) and result == bic_definition(model)")]},
+         ensures=[("[C16] bic-matches-its-definition",
                    # P*ln(T) - 2*sum_k( ln det Theta_k - tr(Theta_k S_k) ), P counted once per maximal run of equal labels
                    "result == runsum(model._point_labels, lambda k: " + _CP + ", len(model._point_labels)) * ln(len(model._point_labels)) "
                    "- 2 * rsum(lambda k: " + _LLE + ", " + _K + ")"),
@@ -30,7 +31,7 @@ contract(CMx + 'bayesian_information_criterion', props=['C16'],
                         modifies=[])})
 
 _NWc = "stacked_training_data.shape[1]"
-contract(CMx + 'calinski_harabasz_index', props=['C17'],
+contract(CMx + 'calinski_harabasz_index', props=['C17', 'C06', 'C13', 'C19'],
          params=dict(stacked_training_data='arr2[real]', model='obj:ModelState'), returns='real',
          requires=["wf(model)", "len(model.clusters) >= 2", "stacked_training_data.shape[0] > len(model.clusters)",
                    "len(model._point_labels) == stacked_training_data.shape[0]",
@@ -43,7 +44,7 @@ contract(CMx + 'calinski_harabasz_index', props=['C17'],
                 'return_kinds': dict(NUM='arr2[real]', DEN='arr2[real]', GC='real'),
                 'native_ensures': [("[C17] native:matches-the-definition-with-the-per-column-centroid",
                                     "result == chi_definition(stacked_training_data, model)")]},
-         ensures=[("ratio-and-degrees-of-freedom", "implies(trace(DEN) != 0, result == (trace(NUM) / trace(DEN)) * "
+         ensures=[("[C17] ratio-and-degrees-of-freedom", "implies(trace(DEN) != 0, result == (trace(NUM) / trace(DEN)) * "
                    "((stacked_training_data.shape[0] - len(model.clusters)) / (len(model.clusters) - 1)))"),
                   # the property: cluster means are compared with the PER-COLUMN centroid of all windows
                   ("[C17] global-centre-is-the-per-column-centroid", "forall(0, " + _NWc + ", lambda c: GC == colmean(stacked_training_data)[c])"),
